@@ -20,9 +20,16 @@ func (verifErrColl12c) Collect(context.Context, error) {}
 // VerifC12Custom: the per-profile cache of compiled custom rules never hands a profile
 // another profile's rules, nor an older version of its own rules after an update.
 //
-//verif:harness name=H12f-custom tier=quick,thorough bounds="2 profiles, each with rule versions 0..2 whose update times are symbolic and strictly increasing; 4 lookups, each for either profile, optionally after bumping its version; real LRU (2 entries) and real urlfilter engine; verdicts probed for 3 hosts" reach=done,hit,recompiled maxpaths=200000
+//verif:harness name=H12f-custom tier=quick bounds="2 profiles, each with rule versions 0..2 whose update times are symbolic and strictly increasing; 4 lookups, each for either profile, optionally after bumping its version; real LRU (2 entries) and real urlfilter engine; verdicts probed for 3 hosts" reach=done,hit,recompiled maxpaths=200000
 //verif:assume rule texts are concrete; time comparison over symbolic instants
-func VerifC12Custom() {
+func VerifC12Custom() { verifC12Custom(4) }
+
+// VerifC12Custom6 is the thorough variant.
+//
+//verif:harness name=H12f-custom6 tier=thorough bounds="as H12f-custom with 6 lookups" reach=done,hit,recompiled maxpaths=5000000
+func VerifC12Custom6() { verifC12Custom(6) }
+
+func verifC12Custom(steps int) {
 	f := New(&Config{
 		Logger:       slogutil.NewDiscardLogger(),
 		ErrColl:      verifErrColl12c{},
@@ -45,7 +52,7 @@ func VerifC12Custom() {
 	ver := [2]int{}
 	ids := [2]string{"prof0000", "prof0001"}
 	ctx := context.Background()
-	for step := 0; step < 4; step++ {
+	for step := 0; step < steps; step++ {
 		p := verifChoice(2)
 		if ver[p] < 2 && verifChoice(2) == 1 {
 			ver[p]++ // the profile's custom rules were updated
